@@ -128,8 +128,12 @@ PostOp(i) == CASE KindOf(i) = KStdout -> IF Variant = "stdout_kept" THEN i ELSE 
                [] KindOf(i) = KStage -> Id(KRFile, 0, RemOf(i))
                [] KindOf(i) = KSDir -> Id(KRDir, 0, RemOf(i))
                [] OTHER -> i
-\* the statement's shape map, on the outputs as the caller gave them
-ShapeOp(i) == PostOp(PreOp(i))
+\* the statement's shape map, on the outputs as the caller gave them (stated on its own, not through
+\* the two functions above)
+ShapeOp(i) == CASE KindOf(i) = KStdout -> Id(KBytes, 0, 0)
+                [] KindOf(i) \in {KStage, KFile} -> Id(KRFile, 0, RemOf(i))
+                [] KindOf(i) = KSDir -> Id(KRDir, 0, RemOf(i))
+                [] OTHER -> i
 \* leaf functions for MapNested, tabulated on the leaf ids that occur in v
 LeafIds(v) == {n.t : n \in ToSet(IterLeaves(v))}
 PreMap(v) == MapNested([i \in LeafIds(v) |-> PreOp(i)], v)
@@ -174,10 +178,10 @@ InitFs(c) ==
                         THEN Cn("init", p, <<>>) ELSE NoContent]
 World0(c) == [fs |-> InitFs(c), tmp |-> <<>>, out |-> <<>>, ran |-> 0]
 
-RECURSIVE WriteAll(_, _, _, _)
-WriteAll(fs, outs, seen, j) ==
-  IF j > Len(outs) THEN fs
-  ELSE WriteAll([fs EXCEPT ![LocOf(outs[j].t)] = Cn("made", LocOf(outs[j].t), seen)], outs, seen, j + 1)
+\* (folds are FoldLeft of SequencesExt: evaluated strictly by its Java override; a recursive operator
+\* that threads the world through its arguments is re-evaluated at every use by TLC)
+WriteAll(fs, outs, seen) ==
+  FoldLeft(LAMBDA f, o : [f EXCEPT ![LocOf(o.t)] = Cn("made", LocOf(o.t), seen)], fs, outs)
 
 ExecSeg(c, wrapper, wd, sg) ==
   CASE sg.k = "stage" -> [wd EXCEPT !.fs[LocOf(sg.a)] = wd.fs[RemOf(sg.a)]]
@@ -187,12 +191,10 @@ ExecSeg(c, wrapper, wd, sg) ==
              outs == StagingLeaves(PreMap(c.outs))
              seen == [j \in 1..Len(ins) |-> wd.fs[LocOf(ins[j].t)]]
              body == ShellRead(wrapper).body
-         IN [fs |-> WriteAll(wd.fs, outs, seen, 1), tmp |-> body, out |-> body, ran |-> wd.ran + 1]
+         IN [fs |-> WriteAll(wd.fs, outs, seen), tmp |-> body, out |-> body, ran |-> wd.ran + 1]
     [] OTHER -> wd        \* cd, noop
 
-RECURSIVE RunSegs(_, _, _, _, _)
-RunSegs(c, wrapper, wd, segs, i) ==
-  IF i > Len(segs) THEN wd ELSE RunSegs(c, wrapper, ExecSeg(c, wrapper, wd, segs[i]), segs, i + 1)
+RunSegs(c, wrapper, wd, segs) == FoldLeft(LAMBDA x, sg : ExecSeg(c, wrapper, x, sg), wd, segs)
 
 \* "stages every input before and unstages every output after the command": at the end every
 \* remote output holds what the command made from the inputs' remote contents
@@ -219,7 +221,7 @@ LawShape(c, res) == res = ShapeMap(c.outs)
 (* One call of script(), step by step.                                     *)
 (***************************************************************************)
 VARIABLES cas,    \* [cmd, ins, outs, tempdir, dsh]: the call
-          pc,     \* "prepare" "eof" "wrap" "exec" "done"  (generators add their own start labels)
+          pc,     \* "prepare" "eof" "exec" "done"  (generators add their own start labels)
           txt,    \* the prepared text
           idx,    \* get_command_eof's index
           segs, ip, world, res
@@ -230,23 +232,20 @@ NoRes == Leaf(0)
 StepPrepare == /\ pc = "prepare"
                /\ txt' = Prepare(cas.cmd, cas.dsh) /\ idx' = 0 /\ pc' = "eof"
                /\ UNCHANGED <<cas, segs, ip, world, res>>
-\* one iteration of `while True: if eof in lines: index += 1 ... else: return eof`
+\* one iteration of `while True: if eof in lines: index += 1 ... else: return eof`; on return the
+\* wrapper is formatted and script() joins the parts (no state of its own: nothing can interleave)
 StepEof == /\ pc = "eof"
            /\ IF HasLine(txt, EofLine(idx)) /\ Variant # "eof_fixed"
-              THEN idx' = idx + 1 /\ pc' = pc
-              ELSE idx' = idx /\ pc' = "wrap"
-           /\ UNCHANGED <<cas, txt, segs, ip, world, res>>
-StepWrap == /\ pc = "wrap"
-            /\ segs' = Assemble(cas) /\ ip' = 1 /\ world' = World0(cas)
-            /\ pc' = "exec"
-            /\ UNCHANGED <<cas, txt, idx, res>>
+              THEN idx' = idx + 1 /\ pc' = pc /\ UNCHANGED <<segs, ip, world>>
+              ELSE idx' = idx /\ pc' = "exec" /\ segs' = Assemble(cas) /\ ip' = 1 /\ world' = World0(cas)
+           /\ UNCHANGED <<cas, txt, res>>
+\* the shell executes one part; after the last one postprocess_script maps the outputs
 StepExec == /\ pc = "exec" /\ ip <= Len(segs)
             /\ world' = ExecSeg(cas, wrp, world, segs[ip]) /\ ip' = ip + 1
-            /\ UNCHANGED <<cas, pc, txt, idx, segs, res>>
-StepPost == /\ pc = "exec" /\ ip > Len(segs)
-            /\ res' = PostMap(PreMap(cas.outs)) /\ pc' = "done"
-            /\ UNCHANGED <<cas, txt, idx, segs, ip, world>>
-Run == StepPrepare \/ StepEof \/ StepWrap \/ StepExec \/ StepPost
+            /\ IF ip = Len(segs) THEN res' = PostMap(PreMap(cas.outs)) /\ pc' = "done"
+                                 ELSE res' = res /\ pc' = pc
+            /\ UNCHANGED <<cas, txt, idx, segs>>
+Run == StepPrepare \/ StepEof \/ StepExec
 
 (***************************************************************************)
 (* Properties.  The laws are stated once, on the final state of a call     *)
